@@ -6,6 +6,7 @@ import (
 
 	"github.com/privacybydesign/gabi"
 	"github.com/privacybydesign/gabi/big"
+	"github.com/privacybydesign/gabi/gabikeys"
 	"pgregory.net/rapid"
 
 	"verif/sim/kernel"
@@ -238,7 +239,66 @@ func execC03(r *kernel.Run, s C03Spec) {
 			}
 		}
 	}
+	{
+		// colluding holder whose issuance commitment is over the NEGATED secret, with the pooled randomizer
+		// negated as well: its secret-key response is exactly minus the others'
+		var bl gabi.ProofBuilderList
+		holders2 := append([]int{}, holders...)
+		secrets2 := append([]*big.Int{}, secrets...)
+		anyNeg, usable := false, true
+		for i, b := range s.Builders {
+			if b.Issuance {
+				neg := new(big.Int).Neg(secrets[b.Holder])
+				cb, err := gabi.NewCredentialBuilder(keys[b.Key].Pk, ctx, neg, randBits(w.hr, 80), nil, b.Blind)
+				if err != nil {
+					usable = false
+					break
+				}
+				bl = append(bl, &negRandomizerBuilder{cb})
+				secrets2 = append(secrets2, neg)
+				holders2[i] = len(secrets2) - 1
+				anyNeg = true
+				continue
+			}
+			db, err := bs.Creds[i].Cred.CreateDisclosureProofBuilder(maskToIndices(b.Mask, b.NAttrs), nil, false)
+			if err != nil {
+				usable = false
+				break
+			}
+			bl = append(bl, db)
+		}
+		if anyNeg && usable {
+			var pl gabi.ProofList
+			var err error
+			if p := guard(func() { pl, err = bl.BuildProofList(ctx, nonce, s.IsSig) }); p == "" && err == nil {
+				r.Probe("negated-secret-commitment-built")
+				holdersWas, secretsWas := holders, secrets
+				holders, secrets = holders2, secrets2
+				try("negated-secret-commitment", "negated-secret", pl, false)
+				holders, secrets = holdersWas, secretsWas
+			}
+		}
+	}
 	r.Sample(s)
+}
+
+// negRandomizerBuilder hands its inner builder the negated pooled secret-key randomizer.
+type negRandomizerBuilder struct{ inner *gabi.CredentialBuilder }
+
+func (n *negRandomizerBuilder) Commit(rz map[string]*big.Int) ([]*big.Int, error) {
+	m := map[string]*big.Int{}
+	for k, v := range rz {
+		m[k] = v
+	}
+	if v := rz["secretkey"]; v != nil {
+		m["secretkey"] = new(big.Int).Neg(v)
+	}
+	return n.inner.Commit(m)
+}
+func (n *negRandomizerBuilder) CreateProof(c *big.Int) gabi.Proof { return n.inner.CreateProof(c) }
+func (n *negRandomizerBuilder) PublicKey() *gabikeys.PublicKey    { return n.inner.PublicKey() }
+func (n *negRandomizerBuilder) SetProofPCommitment(p *gabi.ProofPCommitment) {
+	n.inner.SetProofPCommitment(p)
 }
 
 func issuanceMask(bs []BuilderSpec) string {
